@@ -263,7 +263,9 @@ def check(repo: Repo, run: Run) -> None:
         run.ob("C12.N5", "Referent raw field", True, f"the raw field(s) {raw} of Referent are read only inside Referent: every lookup goes through the `value` property", ev.loc(cls))
     # N2 -----------------------------------------------------------------
     E = ev.cls("Evaluator")
-    meths = class_methods(E)
+    from ..core.model import class_methods_n
+
+    meths = class_methods_n(E)
     sub = meths.get("sub_evaluator")
     ok = sub is not None and "activation=self.activation" in ast.unparse(sub)
     run.ob("C12.N2", "Evaluator.sub_evaluator", ok, "the macro sub-evaluator is built on the current activation (outer variables stay visible)", ev.loc(sub) if sub else str(ev.path))
